@@ -3,7 +3,7 @@
 From Coq Require Import Reals Lra Lia ZArith List Bool.
 Require Import SK.Base.Res SK.Base.Num SK.Base.RInst SK.Lemmas.VecFacts SK.Lemmas.Loops SK.Lemmas.Csc SK.Lemmas.Consistency
                SK.Lemmas.SparseEpoch SK.Lemmas.BcdBase SK.Lemmas.PnSparseHelpers.
-Require Import SK.Gen.KernPN.
+Require Import SK.Gen.KernCD SK.Gen.KernPN.
 Import ListNotations.
 Local Open Scope R_scope.
 
@@ -129,6 +129,103 @@ Proof.
       destruct (subdiff _ pg1 ws); cbn [bind] in Hrun; [|discriminate].
       destruct (vemax _); cbn [bind] in Hrun; [|discriminate].
       destruct (eleb _ tol); unfold ret in Hrun; inversion Hrun; subst; exact HXd1.
+    + unfold ret in Hrun. inversion Hrun; subst. exact HXd1.
+Qed.
+
+Theorem descent_direction_sparse_eq_dense_fixpoint w_epoch Xw_epoch grad_ws ws tol :
+  Forall (fun j => (0 <= j < Z.of_nat (length X))%Z) ws -> length Xw_epoch = n ->
+  @_descent_direction_s__fit_intercept_False__ws_strategy_fixpoint R _ raw_hessian prox_1d
+      (cdata M) (cindptr M) (cindices M) y w_epoch Xw_epoch grad_ws ws tol
+  = @_descent_direction__fit_intercept_False__ws_strategy_fixpoint R _ raw_hessian prox_1d X y w_epoch Xw_epoch grad_ws ws tol.
+Proof.
+  intros Hws HXw. rewrite Forall_forall in Hws.
+  unfold _descent_direction_s__fit_intercept_False__ws_strategy_fixpoint, _descent_direction__fit_intercept_False__ws_strategy_fixpoint.
+  cbv zeta. destruct (raw_hessian y Xw_epoch) as [rh|] eqn:Hrh; cbn [bind]; [|reflexivity].
+  pose proof (Hhess Xw_epoch rh HXw Hrh) as Hlrh.
+  (* the Lipschitz loop *)
+  assert (Hlip : for_enum ws (fun idx j lipschitz_ws =>
+      bind (_sparse_squared_weighted_norm (cdata M) (cindptr M) (cindices M) j rh) (fun t2 =>
+      bind (set_idx lipschitz_ws idx t2) (fun lipschitz_ws => ret lipschitz_ws))) (vzeros (zlen ws))
+    = for_enum ws (fun idx j lipschitz_ws =>
+      bind (mcol X j) (fun t2 => bind (set_idx lipschitz_ws idx (vdot rh (vmap fsq t2))) (fun lipschitz_ws => ret lipschitz_ws))) (vzeros (zlen ws))).
+  { unfold for_enum. apply (for_enum_from_ext_inv (fun _ => True)); [exact I| |trivial].
+    intros idx j s Hin _. destruct (Hcols j (Hws j Hin)) as (lo & hi & Hb & Hwf & Hnd & Hc).
+    rewrite (sparse_squared_weighted_norm_is_dense n M j lo hi rh Hb Hwf Hnd Hlrh), Hc. reflexivity. }
+  rewrite Hlip. clear Hlip. same_head. rename v into lipv.
+  replace (zlen Xw_epoch) with (@mrows R X) by (rewrite Hrows; unfold zlen; rewrite HXw; reflexivity).
+  same_head. rename v into w0.
+  match goal with |- bind ?a _ = bind ?b _ => assert (E : a = b); [|rewrite E; reflexivity] end.
+  apply (for_each_ext_inv (fun s : list R * list R * list R * bool => let '(_, _, Xd, _) := s in length Xd = n)).
+  - unfold vzeros. rewrite Hrows, Nat2Z.id. apply repeat_length.
+  - intros cd [[[pg ww] Xd] b] _ HXd. destruct b; [reflexivity|].
+    match goal with |- bind ?a _ = bind ?b _ => assert (E : a = b); [|rewrite E; reflexivity] end.
+    unfold for_enum. apply (for_enum_from_ext_inv (fun s : list R * list R * list R => let '(_, _, Xd1) := s in length Xd1 = n)); [exact HXd| |].
+    + intros idx j [[pg1 ww1] Xd1] Hin HXd1. destruct (Hcols j (Hws j Hin)) as (lo & hi & Hb & Hwf & Hnd & Hc).
+      destruct (get_idx lipv idx) as [l0|]; cbn [bind]; [|reflexivity].
+      destruct (feqb l0 (fofZ 0)); [reflexivity|].
+      destruct (get_idx grad_ws idx) as [g0|]; cbn [bind]; [|reflexivity].
+      rewrite Hc. cbn [bind].
+      rewrite (sparse_weighted_dot_is_dense n M j lo hi Xd1 rh Hb Hwf HXd1 Hlrh).
+      destruct (set_idx pg1 idx g0) as [pg2|] eqn:Es.
+      * destruct (set_then_get_set pg1 pg2 idx g0 Es) as [Hget Hset]. cbn [bind]. rewrite Hget. cbn [bind]. rewrite Hset.
+        destruct (set_idx pg1 idx (fadd g0 (vdot (dense_col n M lo hi) (vmap2 fmul rh Xd1)))) as [pg3|]; cbn [bind]; [|reflexivity].
+        destruct (get_idx ww1 idx) as [old|]; cbn [bind]; [|reflexivity].
+        destruct (fdiv (fofZ 1) l0) as [st|]; cbn [bind]; [|reflexivity].
+        destruct (get_idx pg3 idx) as [pgv|]; cbn [bind]; [|reflexivity].
+        destruct (prox_1d _ st j) as [nv|]; cbn [bind]; [|reflexivity].
+        destruct (set_idx ww1 idx nv) as [ww2|]; cbn [bind]; [|reflexivity].
+        destruct (get_idx ww2 idx) as [nv2|]; cbn [bind]; [|reflexivity].
+        destruct (negb (feqb nv2 old)); [|reflexivity].
+        rewrite (update_X_delta_w_is_dense_axpy n M j lo hi Xd1 (fsub nv2 old) Hb Hwf HXd1). cbn [bind]. reflexivity.
+      * (* the store fails in the sparse kernel: the same index fails in the dense one *)
+        assert (Hn : norm_idx (length pg1) idx = None) by (unfold set_idx in Es; destruct (norm_idx (length pg1) idx); [discriminate|reflexivity]).
+        assert (He : forall b, set_idx pg1 idx b = Err OOB) by (intros b; unfold set_idx; rewrite Hn; reflexivity).
+        rewrite He in Es. inversion Es; subst. cbn [bind]. rewrite He. reflexivity.
+    + intros idx j [[pg1 ww1] Xd1] [[pg2 ww2] Xd2] Hin HXd1 Hrun. destruct (Hcols j (Hws j Hin)) as (lo & hi & Hb & Hwf & Hnd & Hc).
+      destruct (get_idx lipv idx) as [l0|]; cbn [bind] in Hrun; [|discriminate].
+      destruct (feqb l0 (fofZ 0)); [unfold ret in Hrun; inversion Hrun; subst; exact HXd1|].
+      destruct (get_idx grad_ws idx) as [g0|]; cbn [bind] in Hrun; [|discriminate].
+      rewrite Hc in Hrun. cbn [bind] in Hrun.
+      destruct (set_idx pg1 idx _) as [pg3|]; cbn [bind] in Hrun; [|discriminate].
+      destruct (get_idx ww1 idx) as [old|]; cbn [bind] in Hrun; [|discriminate].
+      destruct (fdiv (fofZ 1) l0) as [st|]; cbn [bind] in Hrun; [|discriminate].
+      destruct (get_idx pg3 idx) as [pgv|]; cbn [bind] in Hrun; [|discriminate].
+      destruct (prox_1d _ st j) as [nv|]; cbn [bind] in Hrun; [|discriminate].
+      destruct (set_idx ww1 idx nv) as [ww3|]; cbn [bind] in Hrun; [|discriminate].
+      destruct (get_idx ww3 idx) as [nv2|]; cbn [bind] in Hrun; [|discriminate].
+      destruct (negb (feqb nv2 old)); unfold ret in Hrun; inversion Hrun; subst; [|exact HXd1].
+      cbn [fadd fmul fsub RNum]. unfold vmap. rewrite vmap2_length; rewrite ?map_length, ?dense_col_length; lia.
+  - intros cd [[[pg ww] Xd] b] [[[pg' ww'] Xd'] b'] _ HXd Hrun. destruct b; [unfold ret in Hrun; inversion Hrun; subst; exact HXd|].
+    destruct (for_enum ws _ (pg, ww, Xd)) as [[[pg1 ww1] Xd1]|] eqn:Hsw; cbn [bind] in Hrun; [|discriminate].
+    assert (HXd1 : length Xd1 = n).
+    { unfold for_enum in Hsw.
+      match type of Hsw with for_enum_from _ _ ?bd _ = _ => set (body := bd) in Hsw end.
+      assert (Hbody : forall idx j pa wa Xa pb wb Xb, In j ws -> length Xa = n -> body idx j (pa, wa, Xa) = Ok (pb, wb, Xb) -> length Xb = n).
+      { intros idx j pga wwa Xda pgb wwb Xdb Hj HXa Eb. unfold body in Eb.
+        destruct (Hcols j (Hws j Hj)) as (lo & hi & Hb & Hwf & Hnd & Hc).
+        destruct (get_idx lipv idx) as [l0|]; cbn [bind] in Eb; [|discriminate].
+        destruct (feqb l0 (fofZ 0)); [unfold ret in Eb; injection Eb as _ _ E3; rewrite <- E3; exact HXa|].
+        destruct (get_idx grad_ws idx) as [g0|]; cbn [bind] in Eb; [|discriminate].
+        rewrite Hc in Eb. cbn [bind] in Eb.
+        destruct (set_idx pga idx _) as [pg3|]; cbn [bind] in Eb; [|discriminate].
+        destruct (get_idx wwa idx) as [old|]; cbn [bind] in Eb; [|discriminate].
+        destruct (fdiv (fofZ 1) l0) as [st|]; cbn [bind] in Eb; [|discriminate].
+        destruct (get_idx pg3 idx) as [pgv|]; cbn [bind] in Eb; [|discriminate].
+        destruct (prox_1d _ st j) as [nv|]; cbn [bind] in Eb; [|discriminate].
+        destruct (set_idx wwa idx nv) as [ww3|]; cbn [bind] in Eb; [|discriminate].
+        destruct (get_idx ww3 idx) as [nv2|]; cbn [bind] in Eb; [|discriminate].
+        destruct (negb (feqb nv2 old)); unfold ret in Eb; injection Eb as _ _ E3; rewrite <- E3; [|exact HXa].
+        cbn [fadd fmul fsub RNum]. unfold vmap. rewrite vmap2_length; rewrite ?map_length, ?dense_col_length; lia. }
+      clearbody body. clear - Hbody HXd Hsw. revert Hsw. generalize 0%Z as i0. revert HXd. generalize pg ww Xd.
+      induction ws as [|j ws' IH]; intros pga wwa Xda HXa i0 Hsw; simpl in Hsw; [injection Hsw as _ _ E3; rewrite <- E3; exact HXa|].
+      destruct (body i0 j (pga, wwa, Xda)) as [[[pgb wwb] Xdb]|] eqn:Eb; cbn [bind] in Hsw; [|discriminate].
+      apply (IH (fun idx j0 pa wa Xa pb wb Xb Hj0 => Hbody idx j0 pa wa Xa pb wb Xb (or_intror Hj0)) pgb wwb Xdb) with (i0 := (i0 + 1)%Z); [|exact Hsw].
+      exact (Hbody i0 j pga wwa Xda pgb wwb Xdb (or_introl eq_refl) HXa Eb). }
+    destruct (Z.eqb _ _).
+    + destruct (scatter w_epoch ws ww1); cbn [bind] in Hrun; [|discriminate].
+      destruct (SK.Gen.KernCD.dist_fix_point_cd _ _ _ _ _); cbn [bind] in Hrun; [|discriminate].
+      destruct (vmax _); cbn [bind] in Hrun; [|discriminate].
+      destruct (fleb _ tol); unfold ret in Hrun; inversion Hrun; subst; exact HXd1.
     + unfold ret in Hrun. inversion Hrun; subst. exact HXd1.
 Qed.
 End Dir.
